@@ -25,6 +25,10 @@ type GlobCase struct {
 	// DirLink "name->target": a symbolic link to a directory inside the tree. Whether a wildcard reaches files
 	// through such a link is not settled by the property (accept either); everything else stays exact
 	DirLink string `json:"dir_link,omitempty"`
+	// FileLinks "name->target": symbolic links to files (matching and not matching the patterns, hidden, missing).
+	// Whether the link itself is part of the expansion is left open (only regular files are compared); what a
+	// link must never do is bring its target into an expansion the target's own path does not belong to
+	FileLinks []string `json:"file_links,omitempty"`
 }
 
 // GEdit adds or removes one file.
@@ -70,6 +74,11 @@ func (globScen) Gen(r *Rng, cfg GenConfig) any {
 	}
 	if r.Chance(1, 6) {
 		c.DirLink = Pick(r, []string{"vendor->src", "lib/ext->../src/deep", "zlink->src/deep"})
+	}
+	if r.Chance(1, 5) {
+		c.FileLinks = Subset(r, []string{"alias.js->m.txt", "src/alias.js->../.x.js", "latest.txt->src/b.txt", "zz.js->nowhere", "lib/link.js->../a.js", "src/deep/up.txt->../../.z.txt"}, 1, 2)
+		// a link whose target is missing cannot be hashed: patterns are declared as outputs in these cases
+		c.Outs, c.Deps = append(c.Outs, c.Deps...), nil
 	}
 	for s := r.Range(1, 4); s > 0; s-- {
 		var step []GEdit
@@ -119,6 +128,9 @@ func (globScen) Exec(w *World, cc any, prop string) *Result {
 				return
 			}
 		}
+		if st, err := os.Lstat(filepath.Join(root, filepath.FromSlash(rel))); err == nil && !st.Mode().IsRegular() {
+			return
+		}
 		model[rel] = "x"
 		writeFile(filepath.Join(root, filepath.FromSlash(rel)), "x")
 	}
@@ -135,6 +147,16 @@ func (globScen) Exec(w *World, cc any, prop string) *Result {
 		must(os.MkdirAll(filepath.Dir(filepath.Join(root, filepath.FromSlash(linkName))), 0o755))
 		must(os.Symlink(filepath.FromSlash(parts[1]), filepath.Join(root, filepath.FromSlash(linkName))))
 		res.count("fault_present:directory_symlink_in_tree")
+	}
+	for _, fl := range c.FileLinks {
+		parts := strings.SplitN(fl, "->", 2)
+		full := filepath.Join(root, filepath.FromSlash(parts[0]))
+		if _, err := os.Lstat(full); err == nil || conflictsWithFile(model, parts[0]) {
+			continue
+		}
+		if os.MkdirAll(filepath.Dir(full), 0o755) == nil && os.Symlink(filepath.FromSlash(parts[1]), full) == nil {
+			res.count("fault_present:file_symlink_in_tree")
+		}
 	}
 	// throughLink: rel names a regular file reached through the directory link and matching the pattern
 	throughLink := func(p, rel string) bool {
@@ -347,6 +369,9 @@ func (globScen) Shrinks(cc any) []any {
 	}
 	if c.DirLink != "" {
 		add(func(n *GlobCase) { n.DirLink = "" })
+	}
+	for i := range c.FileLinks {
+		add(func(n *GlobCase) { n.FileLinks = append(n.FileLinks[:i:i], n.FileLinks[i+1:]...) })
 	}
 	for si, st := range c.Steps {
 		for ei := range st {
